@@ -41,4 +41,9 @@ theorem cli_notified : ∀ s, codeCfg.notified s = true := by
 theorem cli_good : Pandora.Proofs.C06Cli.Good codeCfg :=
   ⟨cli_waits, cli_notified, by intro s; cases s <;> decide⟩
 
+/-- every interrupt timeout is at least 3 s — the harness treats an exit through the timeout earlier than 2.5 s after
+the signal as conclusive, and the assumption "the engine's tasks end within the interrupt timeout" is only
+reasonable for timeouts of this order (the values themselves are not claimed: 3 s / 30 s today) -/
+theorem cli_timeouts_ge : Gen.Cli.signalCases.all (fun c => decide (3000 ≤ c.2.2)) = true := by decide
+
 end Pandora.Bridge.Cli
